@@ -488,7 +488,7 @@ def _run_config(ctx, data_on, posmask, xyz_on, print_on, ckpt_on, resume=False, 
     ctx.notes.append("run config data=%s vec=%s xyz=%s print=%s ckpt=%s: %d paths (%d to the back edge, %d returning), explorer %s" % (data_on, posmask, xyz_on, print_on, ckpt_on, len(ex.paths), n_ended, n_ret, ex.stats))
     ctx.cover("pre", pre)
     ctx.hubs = frozenset(["k#1", "steps", "r"])
-    ctx.discharge(ex.all_obligations(), replay=replay_cadence, classify=classify_cadence)
+    ctx.discharge(ex.all_obligations(), replay=replay_resumed_cadence if resume else replay_cadence, classify=classify_cadence)
     ctx.assume_note("A3 (ghost h5py / text files) as in pyvc.ghostfs; _rotate_existing assumed to find no previous files")
     ctx.assume_note("callee contracts assumed here and proved separately: append_vectors/append_data = vectors_effect/data_effect (tasks append_vectors, append_data); _do_integrator_step advances the molecule to hist(., i+1) (C08); _kinetic_energy/_calc_temperature are functions of the current velocities only (C08/C13)")
     ctx.assume_note("configuration: fresh run (step_offset = 0), molid = [0], ground state, no scale_vel / control_energy_shift / COM removal kwargs")
@@ -621,6 +621,74 @@ def replay_cadence(model):
         shutil.rmtree(tmp, ignore_errors=True)
 
 
+def replay_resumed_cadence(model):
+    """Real driver: 12 planned steps, checkpoint every 5, crash injected at the start of step 6, run_from_checkpoint;
+    every stream must hold exactly its own due labels."""
+    import os, shutil, tempfile, io, contextlib
+    import torch, h5py
+    from seqm.seqm_functions.constants import Constants
+    from seqm.Molecule import Molecule
+    import seqm.MolecularDynamics as M
+
+    def gi(k):
+        try:
+            return int(model.get(k))
+        except (TypeError, ValueError):
+            return 0
+
+    primes = iter((2, 3, 4))
+    cad = {n: (next(primes) if gi("d_" + n) > 0 else 0) for n in STREAMS}
+    d_data = 1 if gi("d_data") > 0 else 0
+    steps, c = 12, 5
+    torch.set_default_dtype(torch.float64)
+    tmp = tempfile.mkdtemp(prefix="pyvc_c11r_")
+    try:
+        params = {"method": "AM1", "scf_eps": 1e-6, "scf_converger": [2, 0.0], "sp2": [False, 1e-5], "elements": [0, 1], "learned": [], "pair_outer_cutoff": 1e10, "eig": True}
+        mol = Molecule(Constants(), params, torch.tensor([[[0.0, 0, 0], [0.78, 0, 0]]]), torch.tensor([[1, 1]]))
+        out = {"molid": [0], "prefix": os.path.join(tmp, "md"), "print every": 0, "checkpoint every": c, "xyz": 0,
+               "h5": {"data": d_data, "coordinates": cad["coordinates"], "velocities": cad["velocities"], "forces": cad["forces"]}}
+        md = M.Molecular_Dynamics_Basic(params, timestep=0.2, Temp=300.0, output=out)
+        orig = M.Molecular_Dynamics_Basic._do_integrator_step
+
+        def crashing(self, i, molecule, lp, **kw):
+            if i == c:
+                raise KeyboardInterrupt("injected crash")
+            return orig(self, i, molecule, lp, **kw)
+
+        M.Molecular_Dynamics_Basic._do_integrator_step = crashing
+        try:
+            with contextlib.redirect_stdout(io.StringIO()):
+                try:
+                    md.run(mol, steps, seed=1)
+                except KeyboardInterrupt:
+                    pass
+        finally:
+            M.Molecular_Dynamics_Basic._do_integrator_step = orig
+        with contextlib.redirect_stdout(io.StringIO()):
+            M.Molecular_Dynamics_Basic.run_from_checkpoint(os.path.join(tmp, "md.restart.pt"))
+        bad = {}
+        with h5py.File(os.path.join(tmp, "md.0.h5"), "r") as f:
+            for name, d in list(cad.items()) + [("data", d_data)]:
+                want = [l for l in range(0, steps + 1) if d > 0 and l % d == 0]
+                got = f[name + "/steps"][...].tolist() if name in f else []
+                if got != want:
+                    bad[name] = {"cadence": d, "want_labels": want, "got_labels": got}
+        return {"reproduced": bool(bad), "history": "12 steps, checkpoint every 5, crash at the start of step 6, resumed", "cadences": dict(cad, data=d_data), "streams_wrong": bad}
+    finally:
+        shutil.rmtree(tmp, ignore_errors=True)
+
+
+def _resume_cfg_task(data_on, posmask):
+    def t(ctx):
+        _run_config(ctx, data_on, posmask, True, True, True, resume=True)
+        ctx.assume_note("resumed runs start from a disk satisfying the crash invariant Recoverable(c) (established under C10)")
+    return t
+
+
+task_resume_D_CVF = _resume_cfg_task(True, (True, True, True))
+task_resume_d_cVf = _resume_cfg_task(False, (False, True, False))
+
+
 def _cfg_task(data_on, posmask, xyz_on=True, print_on=True, ckpt_on=True):
     def t(ctx):
         _run_config(ctx, data_on, posmask, xyz_on, print_on, ckpt_on)
@@ -635,5 +703,5 @@ for _d in (True, False):
         globals()["task_" + _name] = _cfg_task(_d, _m)
 task_run_alloff = _cfg_task(False, (False, False, False), False, False, False)
 
-TASKS_QUICK = ["n_timepoints", "append_vectors", "append_data", "xyz_write"] + sorted(_CONFIGS) + ["run_alloff"]
+TASKS_QUICK = ["n_timepoints", "append_vectors", "append_data", "xyz_write"] + sorted(_CONFIGS) + ["run_alloff", "resume_D_CVF", "resume_d_cVf"]
 TASKS_THOROUGH = TASKS_QUICK
